@@ -108,8 +108,9 @@ theorem foldl_ddel_KEq (l : List Nat) : ∀ {d d' : SymDict}, KEq d d' →
   | cons a t ih => intro d d' h; simp only [List.foldl_cons]; exact ih (h.ddel _)
 
 theorem core_congr (w : World) (hinj : SymNameInjective w) (r : Nat) (cfg : Cfg) (ing0 : Ingr)
-    (amp : List Nat) (obs : List (List Nat)) (syms : SymDict) {kin kin' : SymDict} (h : KEq kin kin') :
-    core true w r cfg ing0 amp obs syms kin = core true w r cfg ing0 amp obs syms kin' := by
+    (amp : List Nat) (obs : List (List Nat)) (zo : List (List Nat)) (syms : SymDict)
+    {kin kin' : SymDict} (h : KEq kin kin') :
+    core true w r cfg ing0 amp obs zo syms kin = core true w r cfg ing0 amp obs zo syms kin' := by
   unfold core
   simp only []
   have e1 : (fun i => (dget kin (massSym [i])).isNone) = (fun i => (dget kin' (massSym [i])).isNone) := by
